@@ -188,6 +188,10 @@ class Body:
         for pr in p["p"]:
             if pr == "*":
                 e = e[1] if e[0] == "ref" else ("deref", e)
+            elif isinstance(pr, dict) and "i" in pr and "closure" in pr:
+                ups = self.fn.j.get("upvars") or []
+                nm = ups[pr["i"]] if pr["i"] < len(ups) else "upvar%d" % pr["i"]
+                e = ("upvar", pr["i"], nm)
             elif isinstance(pr, dict) and "i" in pr:
                 e = ("field", e, pr.get("f", str(pr["i"])), pr.get("a"))
             elif isinstance(pr, dict) and "dc" in pr:
@@ -326,6 +330,8 @@ def canon(e):
     if k in ("ref", "deref"):
         return canon(e[1])
     if k == "param":
+        return e[2]
+    if k == "upvar":
         return e[2]
     if k == "local":
         return "_%d" % e[1]
@@ -603,6 +609,9 @@ class Program:
         for key, fn in self.fns.items():
             body = fn.body
             for b, blk in enumerate(body.blocks):
+                if blk["cleanup"]:
+                    # unwind copies of `place = value` (drop-and-replace) repeat the normal-path write
+                    continue
                 for i, s in enumerate(blk["stmts"]):
                     if s["k"] in ("=", "setdiscr"):
                         fields = [p for p in s["lhs"]["p"] if isinstance(p, dict) and "f" in p and p.get("a")]
